@@ -108,7 +108,7 @@ class Env:
 class Out:
     """Per-case recorder (created in the worker, merged in the parent)."""
 
-    MAX_VIOL_PER_CASE = 50
+    MAX_VIOL_PER_CASE = 200
 
     def __init__(self):
         self.states = 0
@@ -118,6 +118,7 @@ class Out:
         self.outcomes = set()
         self.nontrivial = set()
         self.violations = []
+        self._per_key = {}
         self.n_violations = 0
         self.counters = collections.Counter()
         self.sample = None
@@ -144,7 +145,9 @@ class Out:
 
     def violation(self, key, what, **detail):
         self.n_violations += 1
-        if len(self.violations) < self.MAX_VIOL_PER_CASE:
+        self._per_key[key] = self._per_key.get(key, 0) + 1
+        # every violation is counted; at most 3 records per finding key (and 200 per case) are materialised
+        if self._per_key[key] <= 3 and len(self.violations) < self.MAX_VIOL_PER_CASE:
             self.violations.append({'key': key, 'what': what, 'detail': jsonable(detail)})
 
     def check(self, cond, key, what, **detail):
@@ -156,7 +159,7 @@ class Out:
         return {
             'states': self.states, 'transitions': self.transitions, 'traces': self.traces, 'evals': self.evals,
             'outcomes': self.outcomes, 'nontrivial': self.nontrivial, 'violations': self.violations,
-            'n_violations': self.n_violations, 'counters': dict(self.counters), 'sample': self.sample, 'agg': self.agg,
+            'n_violations': self.n_violations, 'per_key': dict(self._per_key), 'counters': dict(self.counters), 'sample': self.sample, 'agg': self.agg,
         }
 
 
